@@ -112,7 +112,7 @@ func gen(r *rand.Rand) WL {
 		if dagish && r.IntN(3) > 0 {
 			q.K, q.Dir = "reach", "out"
 		}
-		if !dagish && r.IntN(6) == 0 && q.K != "compsearch" && q.K != "creach" {
+		if !dagish && r.IntN(6) == 0 {
 			q.Dir = "both"
 		}
 		if q.K == "canreach" || q.K == "compsearch" {
@@ -424,6 +424,38 @@ func exec(t *testing.T, w WL, cfg simrt.Config) simh.Outcome {
 				rc = algo.NewReachabilityCache(context.Background(), dg, w.Cap)
 			}
 			for qi, q := range w.Queries {
+				if q.Dir == "both" && (q.K == "compsearch" || q.K == "creach") {
+					// the stateless searches follow relationships in either direction: the undirected search of the
+					// edge list is their definition
+					und := bfs(w, q.A, "both")
+					if q.K == "compsearch" {
+						ca, okA := cg.ContainingComponent(q.A)
+						cb, okB := cg.ContainingComponent(q.B)
+						if okA && okB {
+							if g := cg.ComponentSearch(ca, cb, graph.DirectionBoth); g != und[q.B] {
+								bad, class = fmt.Sprintf("query %d: ComponentSearch(component of %d, component of %d, both) = %v, the undirected search says %v", qi, q.A, q.B, g, und[q.B]), "oracle:reach"
+								return
+							}
+						}
+					} else if und[q.A] {
+						exp := map[uint64]bool{}
+						for _, e := range w.Edges {
+							for _, pr := range [][2]uint64{{e[0], e[1]}, {e[1], e[0]}} {
+								if pr[0] == q.A {
+									for v := range bfs(w, pr[1], "both") {
+										exp[v] = true
+									}
+								}
+							}
+						}
+						if got, want := sorted(container.Reach(dg, q.A, graph.DirectionBoth).Slice()), keys(exp); fmt.Sprint(got) != fmt.Sprint(want) {
+							bad, class = fmt.Sprintf("query %d: container.Reach(%d, both) = %v, the undirected search gives %v", qi, q.A, got, want), "oracle:reach"
+							return
+						}
+					}
+					counters["both_direction_queries"]++
+					continue
+				}
 				if q.Dir == "both" {
 					// no search defines this direction in the statement; what is owed is that the answer does not
 					// depend on the earlier queries: ask a cache that has never been asked anything
